@@ -171,6 +171,8 @@ class BufGen:
             st = {"k": "op", "tag": self.tag, "args": [r.choice(ivs + ["%n0", "%c1"]) for _ in range(r.randint(0, 2))]}
             if p.get("op_reads") and r.random() < p["op_reads"]:
                 st["reads"] = [r.choice(self.bufs()[N_ARGS:])]  # an op every core executes and that looks into a local buffer
+                if r.random() < 0.3:
+                    st["unranked"] = True  # ... handed over as an unranked memref (a print / debug call)
             return st
         if k == "dealloc":
             return {"k": "dealloc", "buf": r.choice(self.bufs()[N_ARGS:])}
@@ -309,6 +311,11 @@ def emit(ast) -> str:
                 e(ind, stream_text(s))
             elif k == "sync":
                 e(ind, '"snax.cluster_sync_op"() : () -> ()')
+            elif k == "op" and s.get("unranked"):
+                b = s["reads"][0]
+                e(ind, f'%ur{s["tag"]} = "memref.cast"({b}) : ({buf_type(b)}) -> memref<*xi32, "L1">')
+                tys = ", ".join(["index" for _ in s["args"]] + ['memref<*xi32, "L1">'])
+                e(ind, f'"test.op"({", ".join(s["args"] + ["%ur" + str(s["tag"])])}) {{vtag = {s["tag"]} : i64}} : ({tys}) -> ()')
             elif k == "op":
                 tys = ", ".join(["index" for _ in s["args"]] + [buf_type(b) for b in s.get("reads", [])])
                 e(ind, f'"test.op"({", ".join(s["args"] + s.get("reads", []))}) {{vtag = {s["tag"]} : i64}} : ({tys}) -> ()')
